@@ -44,6 +44,11 @@ def scan_function(f):
                         at = dqt(args[1]) or qt(args[1])
                         if at.endswith('*') and 'char' not in at:
                             yield ('stream-pointer', pos(n), at[:60])
+            if (k in ('CXXConstructExpr', 'CXXTemporaryObjectExpr', 'CXXFunctionalCastExpr') and 'std::locale' in t) or \
+                    (k == 'CallExpr' and callee_of(n)[1] == 'setlocale'):
+                # std::locale("") / setlocale(cat, ""): the user's preferred locale, i.e. LANG / LC_* of the environment
+                if any(x.get('kind') == 'StringLiteral' and x.get('value') == '""' for x in walk(n)):
+                    yield ('environment-locale', pos(n), t[:60] or 'setlocale')
             if k == 'CXXNewExpr' and n.get('isArray') and not n.get('initStyle') and not any(
                     c.get('kind') in ('InitListExpr', 'ImplicitValueInitExpr', 'CXXConstructExpr') for c in children(n)):
                 # new T[n] without an initialiser: the bytes are whatever the heap held
@@ -117,7 +122,7 @@ def scan(idx, namespaces=None, funcs=None):
 FIXTURE = os.path.join(os.path.dirname(os.path.abspath(__file__)), 'fixtures', 'nondet.cpp')
 EXPECT_FIXTURE = {'type:unordered_map', 'type:unordered_set', 'pointer-keyed-container', 'pointer-to-integer', 'stream-pointer',
                   'call:getenv', 'call:rand', 'type:random_device', 'call:time', 'call:now', 'type:std::hash', 'call:clock',
-                  'function-static', 'mutable-global', 'uninitialised-buffer', 'errno-read-without-reset'}
+                  'function-static', 'mutable-global', 'uninitialised-buffer', 'errno-read-without-reset', 'environment-locale'}
 
 
 def fixture_patterns():
